@@ -47,6 +47,10 @@ pub struct Case {
     /// these buffer sizes
     #[serde(default)]
     pub via_text_reader: Option<Vec<usize>>,
+    /// (length- and close-delimited bodies read with `read`) one transport read at this fraction of the arrived body fails with
+    /// a timed-out / would-block error before the remaining bytes arrive; the caller reads again: what has arrived is readable
+    #[serde(default)]
+    pub hiccup: Option<(u16, bool)>,
 }
 
 pub const BODILESS: &[u16] = &[100, 101, 102, 103, 199, 204, 304];
@@ -112,7 +116,7 @@ one in sixteen is a head-only 1xx/204/304 response followed by the pause (send()
     fn assumptions() -> Vec<String> {
         vec![
             "a read that reaches the scripted pause is answered with TimedOut so the case ends; it is recorded by the transport (would_block)".into(),
-            "a `log` logger that enables every level (and discards the records) is installed in this check's process".into(),
+            "a `log` logger that enables every level (and discards the records) is installed in every check's process (vcheck's main)".into(),
         ]
     }
 
@@ -139,9 +143,10 @@ one in sixteen is a head-only 1xx/204/304 response followed by the pause (send()
                 prop::bool::weighted(0.2),
                 prop_oneof![15 => Just(None), 1 => (0u8..BODILESS.len() as u8).prop_map(Some)],
                 prop_oneof![6 => Just(None), 1 => proptest::collection::vec(prop_oneof![Just(1usize), 2usize..64, Just(64usize), Just(200usize), Just(8192usize)], 1..4).prop_map(Some)],
+                prop_oneof![5 => Just(None), 1 => (any::<u16>(), any::<bool>()).prop_map(Some)],
             ),
         )
-            .prop_map(|(payload, framing, hdr_style, seg, pause, reads, (redirect_first, via_write_to, bodiless, via_text_reader))| Case {
+            .prop_map(|(payload, framing, hdr_style, seg, pause, reads, (redirect_first, via_write_to, bodiless, via_text_reader, hiccup))| Case {
                 payload,
                 framing,
                 hdr_style,
@@ -152,31 +157,12 @@ one in sixteen is a head-only 1xx/204/304 response followed by the pause (send()
                 via_write_to,
                 bodiless,
                 via_text_reader,
+                hiccup,
             })
             .boxed()
     }
 
     fn check(case: &Case, ctx: &mut Ctx) -> Outcome {
-        // a logger that accepts every level and discards the records is installed for this check: the library's log statements
-        // are then evaluated, and none of them may touch the connection
-        {
-            struct Discard;
-            impl log::Log for Discard {
-                fn enabled(&self, _: &log::Metadata) -> bool {
-                    true
-                }
-                fn log(&self, record: &log::Record) {
-                    // format the arguments like a real logger would
-                    let _ = std::hint::black_box(format!("{}", record.args()).len());
-                }
-                fn flush(&self) {}
-            }
-            static ONCE: std::sync::Once = std::sync::Once::new();
-            ONCE.call_once(|| {
-                let _ = log::set_logger(&Discard);
-                log::set_max_level(log::LevelFilter::Trace);
-            });
-        }
         if let Some(b) = case.bodiless {
             let status = BODILESS[b as usize % BODILESS.len()];
             let head = format!("HTTP/1.1 {status} X\r\nX-Pad: 1\r\n\r\n").into_bytes();
@@ -220,6 +206,27 @@ one in sixteen is a head-only 1xx/204/304 response followed by the pause (send()
         let frame_complete = k >= built.frame_end && !matches!(case.framing, Framing::Close);
         let a = entitled(&built, &case.framing, k);
         let mut events = seg_upto(&case.seg, &built.wire, &built.structural, k);
+        // a transient read error between two arrived pieces of a length- / close-delimited body (plain `read` consumption only)
+        let mut hiccups_left = 0;
+        if let (Some((f, timed_out)), false, false, None, None) = (case.hiccup, matches!(case.framing, Framing::Chunked(_)), case.via_write_to, &case.via_text_reader, &case.redirect_first) {
+            let mut off = 0;
+            let mut first_body_ev = events.len();
+            for (i, e) in events.iter().enumerate() {
+                if off >= built.head_end {
+                    first_body_ev = i;
+                    break;
+                }
+                if let Ev::Data(d) = e {
+                    off += d.len();
+                }
+            }
+            if first_body_ev < events.len() {
+                let at = first_body_ev + (((f as usize) * (events.len() - first_body_ev)) >> 16);
+                events.insert(at, Ev::Err(if timed_out { std::io::ErrorKind::TimedOut } else { std::io::ErrorKind::WouldBlock }));
+                hiccups_left = 1;
+                ctx.label("transient-read-error-inside-the-arrived-body");
+            }
+        }
         events.push(Ev::Pause);
         let (res, net, _guard) = match &case.redirect_first {
             None => get_scripted(events, |rb| rb),
@@ -351,6 +358,11 @@ one in sixteen is a head-only 1xx/204/304 response followed by the pause (send()
                         format!("read returned {n} with {} of {a} entitled bytes delivered (pause at wire offset {k})", delivered.len()),
                     )
                 }
+                Err(_) if hiccups_left > 0 && wb() == 0 => {
+                    // the injected transient error: this caller reads again
+                    hiccups_left -= 1;
+                    continue;
+                }
                 Err(e) => {
                     return Outcome::fail(
                         format!("C19:{fname}:blocked"),
@@ -373,7 +385,12 @@ one in sixteen is a head-only 1xx/204/304 response followed by the pause (send()
         if buf.len() < sz {
             buf.resize(sz, 0);
         }
-        match resp.read(&mut buf[..sz]) {
+        let mut last = resp.read(&mut buf[..sz]);
+        if last.is_err() && hiccups_left > 0 && wb() == 0 {
+            // (the injected transient error had not been reached yet)
+            last = resp.read(&mut buf[..sz]);
+        }
+        match last {
             Ok(0) => {
                 if !frame_complete {
                     return Outcome::fail(format!("C19:{fname}:early-eof"), format!("Ok(0) although the frame is incomplete (pause at {k} of {})", built.frame_end));
